@@ -43,7 +43,7 @@ for pid in sorted(T):
             "text": "Runtime monitoring: the real code (rebuilt from /repo's working tree with the verif tag) is executed on generated, hostile and corpus workloads and an oracle written independently of the code observes every execution. 'Held' means held on the executions listed in the evidence file (finite sub-spaces that are enumerated completely are flagged there); it is not a proof for all inputs.",
             "design_ref": "DESIGN.md section " + ref,
         },
-        "level_note": "Trusted: the Go toolchain, reflection over the exported AST fields, my reference models (reference lexer, grammar G, operator table, line/column model). Bounds: inputs <= 16 KiB, nesting <= 512. Known findings are listed in KNOWN_FINDINGS.txt and reported as KNOWN-FINDING lines.",
+        "level_note": "Trusted: the Go toolchain, reflection over the exported AST fields, my reference models (reference lexer, grammar G, operator table, line/column model). Bounds: generated / mutated inputs <= 16 KiB, nesting <= 512; flat families (wide lists, long statement lists, long operator chains, long tokens, many-line texts) up to about 1 MiB. Known findings are listed in KNOWN_FINDINGS.txt and reported as KNOWN-FINDING lines.",
         "technique": tech,
     })
 na = [{"property_id": pid, "reason": "check not registered yet in this commit (implementation in progress; see DESIGN.md)"} for pid in sorted(T) if pid not in claimed]
